@@ -32,7 +32,7 @@ var hostUniverse = []string{
 	"bar.com", "foo.com:80", "foo.com:443", "foo.com:8080", "*.foo.com:8080", "*.com:8080", "*.foo.com:80", "x-1.foo.com",
 }
 
-var prefixPaths = []string{"/", "/a", "/a/b", "/A/b", "/ab", "/a/b/c", "/A", "/b", "/a/B/c"}
+var prefixPaths = []string{"/", "/a", "/a/b", "/A/b", "/ab", "/a/b/c", "/A", "/b", "/a/B/c", "/straße", "/STRAẞE/x", "/Kelvin", "/kelvin/k", "/Ⱥ", "/ⱥ/z"}
 var globPaths = []string{"/", "/*", "/a", "/a*", "/a/*", "/a/b", "/a/b*", "/a/b/*", "/ab*", "/b*", "/a/b/c*"}
 
 func mixCase(t *rapid.T, s string) string {
@@ -120,7 +120,8 @@ func genRequest(t *rapid.T, rts []rt) reqSpec {
 	case 3:
 		path = mixCase(t, base+rapid.SampledFrom([]string{"", "/x", "/b/c"}).Draw(t, "suffix2"))
 	case 4:
-		path = rapid.SampledFrom([]string{"/", "/zzz", "/a/b/c/d", "/A/B/C", "/ab/c"}).Draw(t, "fixedpath")
+		// incl. letters whose upper and lower case forms differ in UTF-8 length
+		path = rapid.SampledFrom([]string{"/", "/zzz", "/a/b/c/d", "/A/B/C", "/ab/c", "/STRAẞE/x/y", "/straße/x", "/KELVIN/K/1", "/kelvin", "/ⱥ/z/1", "/Ⱥ/q"}).Draw(t, "fixedpath")
 	default:
 		path = base + "/" + rapid.StringMatching(`[a-cA-C/]{0,5}`).Draw(t, "rndsuffix")
 	}
